@@ -721,6 +721,15 @@ pub fn run(scenario: &[Value], it: &mut Interner, out: &mut Vec<Value>, dbdir: &
                 }
                 ev
             }
+            "foreign" => {
+                // another instance of the same process, configured with OTHER circuit resources of the same size (one
+                // constant of the bundled graph changed through the library's own (de)serialiser), proves once; what it
+                // returns is its own business - the instance under observation must not be affected by it
+                let mut ev = json!({"t": "foreign"});
+                let done = catch(AssertUnwindSafe(|| foreign_instance_proves()));
+                ev["res"] = json!(match done { Ok(x) => x, Err(_) => "panic".to_string() });
+                ev
+            }
             "reopen" => {
                 // the node restarts: flush, close, open the same location again (messages on the wire stay)
                 let mut ev = json!({"t": "reopen"});
@@ -754,5 +763,48 @@ pub fn run(scenario: &[Value], it: &mut Interner, out: &mut Vec<Value>, dbdir: &
     drop(cx.rln.take());
     for d in dbs {
         let _ = std::fs::remove_dir_all(d);
+    }
+}
+
+
+/// see op "foreign"
+fn foreign_instance_proves() -> String {
+    use rln::circuit::iden3calc::graph::Node;
+    use rln::circuit::iden3calc::storage::{deserialize_witnesscalc_graph, serialize_witnesscalc_graph};
+    use rln::circuit::{graph_from_folder, ZKEY_BYTES};
+    let orig = graph_from_folder();
+    let Ok((mut nodes, outputs, info)) = deserialize_witnesscalc_graph(Cursor::new(orig)) else { return "no-graph".into() };
+    // the last full-width constant gets another full-width value: same encoded size
+    let mut changed = false;
+    for n in nodes.iter_mut().rev() {
+        if let Node::MontConstant(c) = n {
+            use ark_ff::PrimeField;
+            if c.into_bigint().0[3] != 0 {
+                *c = *c - Fr::from(1u64);
+                changed = true;
+                break;
+            }
+        }
+    }
+    if !changed {
+        return "no-constant".into();
+    }
+    let mut bytes = Vec::new();
+    if serialize_witnesscalc_graph(&mut bytes, &nodes, &outputs, &info).is_err() {
+        return "no-serialise".into();
+    }
+    if bytes.len() != orig.len() {
+        return format!("size {} != {}", bytes.len(), orig.len());
+    }
+    let Ok(mut other) = RLN::new_with_params(20, ZKEY_BYTES.to_vec(), bytes, Cursor::new(Vec::<u8>::new())) else { return "no-instance".into() };
+    let s = Fr::from(424242u64);
+    let lim = Fr::from(10u64);
+    let rc = rln::hashers::poseidon_hash(&[rln::hashers::poseidon_hash(&[s]), lim]);
+    let _ = other.set_leaf(1, Cursor::new(crate::rln_exec::enc_fr(&rc)));
+    let req = rln::protocol::prepare_prove_input(s, 1, lim, Fr::from(1u64), Fr::from(5u64), b"x");
+    let mut o = Vec::new();
+    match other.generate_rln_proof(Cursor::new(req), &mut o) {
+        Ok(()) => "proved".into(),
+        Err(_) => "refused".into(),
     }
 }
